@@ -741,6 +741,8 @@ class Engine:
     # ------------------------------------------------------------------ dict / object primitives
     def dict_get(self, ver, k, default=0):
         """dict.get(k, default) on a version (default must be a number)"""
+        if ver.kind == "empty":
+            return default
         kk = self.as_dictkey(ver, k)
         if ver.ksort == T.Key:
             self.facts.key(kk)
@@ -1244,15 +1246,31 @@ class Engine:
             self.loop_pre = []
         self.loop_pre.append((dict(fr.locals), self.snapshot(list(fr.locals.values()))))
 
-        def inv(ghost):
+        inv_ast = ast.parse(inv_src, mode="eval").body
+        conjuncts = inv_ast.values if isinstance(inv_ast, ast.BoolOp) and isinstance(inv_ast.op, ast.And) else [inv_ast]
+
+        def inv_parts(ghost):
             env = dict(fr.locals)
             env["visited"] = ghost
             env[gname] = ghost
             if ckind == "dict":
                 env["coll"] = coll
                 env["coll%d" % ordinal] = coll
-            t = self.tobool(self.eval_spec(inv_src, env, fr))
-            return z3.BoolVal(t) if isinstance(t, bool) else t
+            out = []
+            for cj in conjuncts:
+                t = self.tobool(self.eval_spec(cj, env, fr))
+                out.append(z3.BoolVal(t) if isinstance(t, bool) else t)
+            return out
+
+        def inv(ghost):
+            ps = inv_parts(ghost)
+            return z3.And(*ps) if len(ps) > 1 else ps[0]
+
+        def oblige_inv(kind, ghost):
+            """each conjunct of the invariant is its own obligation (better diagnostics)"""
+            for ci, p in enumerate(inv_parts(ghost)):
+                self.oblige("%s.c%d" % (kind, ci) if len(conjuncts) > 1 else kind, p,
+                            note=ast.unparse(conjuncts[ci])[:160])
         # ---- init
         if ckind == "dict":
             g0 = FO.empty(self, coll.ksort, coll.vsort)
@@ -1267,7 +1285,7 @@ class Engine:
             g0 = None
         else:
             g0 = SV(coll[0], "int")
-        self.oblige("%s/%s.init" % (qn, kindname), inv(g0))
+        oblige_inv("%s/%s.init" % (qn, kindname), g0)
         # ---- havoc
         live = [n for n in names if n in fr.locals]
         for n in live:
@@ -1364,7 +1382,7 @@ class Engine:
                     if w not in allowed and self._preexisting(w, alloc_mark):
                         raise Unsupported("loop frame inference missed a write to %r" % (w,))
             fr.locals[gname] = vis2
-            self.oblige("%s/%s.step" % (qn, kindname), inv(vis2))
+            oblige_inv("%s/%s.step" % (qn, kindname), vis2)
             raise PathInfeasible()      # the step path ends here
         # ---- exit
         if ckind == "dict":
